@@ -165,8 +165,7 @@ func ruleR2_8(w *World, r *Report) {
 				return
 			}
 			lit := vc.Call.Args[0]
-			gc, ok := lit.(*ssa.Call)
-			if !ok || w.calleeName(&gc.Call) != "(*solver.Clause).Get" {
+			if _, _, ok := clauseElem(w, lit); !ok {
 				return
 			}
 			// only the sets handed around as parameters / locals of the analysers (not fields)
@@ -209,6 +208,27 @@ func ruleR2_8(w *World, r *Report) {
 	if n < 2 {
 		r.Unk("R2.8", "met marking", "-", fmt.Sprintf("%d marking site(s) found, expected the conflict and the reason loop", n))
 	}
+}
+
+// clauseElem: v is a literal read from a constraint, through the accessor `c.Get(i)` or directly as `c.lits[i]`;
+// returns the constraint and the index.
+func clauseElem(w *World, v ssa.Value) (recv, idx ssa.Value, ok bool) {
+	switch x := v.(type) {
+	case *ssa.Call:
+		if w.calleeName(&x.Call) == "(*solver.Clause).Get" && len(x.Call.Args) == 2 {
+			return x.Call.Args[0], x.Call.Args[1], true
+		}
+	case *ssa.UnOp:
+		if x.Op != token.MUL {
+			return nil, nil, false
+		}
+		if ia, isIA := x.X.(*ssa.IndexAddr); isIA {
+			if base, isF := isFieldLoad(ia.X, "solver.Clause", "lits"); isF {
+				return base, ia.Index, true
+			}
+		}
+	}
+	return nil, nil, false
 }
 
 // ---------- R14.3: every decision gets a decision level of its own ----------
